@@ -18,6 +18,11 @@ PROFILES = {
     'shipped_sync': lambda rnd: sp.gen_shipped(rnd, dyn='syn'),
     'shipped_sto': lambda rnd: sp.gen_shipped(rnd, dyn='sto'),
     'queue': lambda rnd: sp.gen_script_queue(rnd),
+    'compete8': lambda rnd: sp.gen_shipped(rnd, classes=['SIR', 'SEIR', 'SIR_FixedRecovery', 'SIR_VariableInfection', 'Opinion', 'SIS'],
+                                          dyn=rnd.choice(['syn', 'syn', 'sto']), extreme=True, oracles=('clock', 'member', 'loci', 'diagram', 'forest'),
+                                          net=sp.rand_net(rnd, 3, 7, kind=rnd.choice(['star', 'complete', 'er', 'path']))),
+    'models': lambda rnd: sp.gen_shipped(rnd, oracles=('clock', 'member', 'loci', 'diagram', 'forest'), extreme=rnd.random() < 0.3,
+                                        net=sp.rand_net(rnd, 3, 8)),
     'ops': lambda rnd: sp.gen_ops(rnd),
     'ops_linr': lambda rnd: sp.gen_ops(rnd, lin_r=True),
     'fixrec': lambda rnd: sp.gen_shipped(rnd, classes=['SIR_FixedRecovery', 'SIS_FixedRecovery']),
